@@ -96,6 +96,7 @@ structure Cfg where
   clientDisable : Bool       -- Client.DisableAutoReadResponse
   reqDisable : Bool          -- Request.DisableAutoReadResponse
   save : Bool                -- Request.SetOutput / SetOutputFile
+  result : Bool              -- Request.SetSuccessResult (a result object to unmarshal into)
 deriving Repr, BEq, DecidableEq
 
 /-- client.go:1740 auto-read guard. -/
@@ -117,8 +118,14 @@ def handleDownload (cfg : Cfg) (r : Resp) : Resp :=
       | .eof | .ok => r'
       | e => { r' with err := some e }
 
+/-- middleware.go `parseResponseBody` with a success-result object set: in the success state
+(200..299) and unless the status is 204 it unmarshals, i.e. calls `ToBytes`. Whether the
+bytes unmarshal is outside this model (the lanes use bodies that do). -/
+def parseResponseBody (cfg : Cfg) (r : Resp) : Resp :=
+  if cfg.result ∧ 199 < r.status ∧ r.status < 300 ∧ r.status ≠ 204 then r.toBytes.2 else r
+
 /-- `Client.roundTrip` after `httpClient.Do` succeeded: auto-read + restore, then the
-response middlewares (parseResponseBody is the identity when no result object is set). -/
+response middlewares `parseResponseBody` and `handleDownload`. -/
 def afterRoundTrip (cfg : Cfg) (status : Nat) (tb : Body) : Resp :=
   let r0 : Resp := { status := status, err := none, cache := none, body := some tb, out := none }
   let r1 :=
@@ -127,7 +134,7 @@ def afterRoundTrip (cfg : Cfg) (status : Nat) (tb : Body) : Resp :=
       -- `bytes.NewReader(resp.body)`: a nil slice is the empty reader
       { r with body := some (Body.restored (match r.cache with | some c => c | none => [])) }
     else r0
-  handleDownload cfg r1
+  handleDownload cfg (parseResponseBody cfg r1)
 
 inductive Op
   | toBytes | toString | bytes | string
